@@ -112,7 +112,7 @@ impl GetRecordContext {
     pub fn new(
         config: GetRecordConfig,
         in_peers: VecDeque<KademliaPeer>,
-        local_record: bool,
+        _local_record: bool,
     ) -> Self {
         let mut candidates = BTreeMap::new();
 
@@ -130,7 +130,10 @@ impl GetRecordContext {
             candidates,
             pending: HashMap::new(),
             queried: HashSet::new(),
-            found_records: if local_record { 1 } else { 0 },
+            // The record from the local store is already accounted for by
+            // `GetRecordConfig::known_records`; counting it here as well would make it count
+            // twice towards the quorum.
+            found_records: 0,
             records: VecDeque::new(),
         }
     }
